@@ -341,6 +341,13 @@ func (c *c06Case) Run(ctx *core.Ctx) {
 			want = "LFB"
 		}
 		files = Files{"layouts/l.vuego": lay, "page.vuego": page}
+		if c.Var == "for-component" {
+			// a slot template written inside an include tag is content for that component, not for the layout
+			files["c.vuego"] = `<section><slot name="side">CFB</slot></section>`
+			files["page.vuego"] = "---\nlayout: l\n---\n" + `<template include="c.vuego"><template #side>` + csrc + `</template></template><p>body</p>`
+			expectText("section", []string{ctext}, "component-slot")
+			want = "LFB"
+		}
 		expectText("aside", []string{want}, "layout-slot")
 		trig = c.Var + "/" + c.Kind
 	}
@@ -424,6 +431,8 @@ func init() {
 				emit(&c06Case{Part: "layout", Var: "supplied", Kind: k})
 			}
 			emit(&c06Case{Part: "layout", Var: "none", Kind: "static"})
+			emit(&c06Case{Part: "layout", Var: "for-component", Kind: "static"})
+			emit(&c06Case{Part: "layout", Var: "for-component", Kind: "dyn"})
 			for _, f := range []string{"hash", "vslot", "lower", "none"} {
 				emit(&c06Case{Part: "case", Form: f})
 			}
